@@ -6,7 +6,12 @@
    torch_frame/data/mapper.py as the pandas/torch pipeline it is (Model/Mapper.v),
    read back cell by cell; a Series `s` is a list of (label, cell) over an
    arbitrary label type L.  `canon_*` (Model/MapperSpec.v) is the property's own
-   wording for ONE cell.  Every theorem is for all series (all lengths, all
+   wording for ONE cell.  The category list `cats` of the (multi)categorical
+   theorems is an INPUT: the implementation's own COUNT / MULTI_COUNT statistic
+   (that it lists every value once, by frequency, is C03's statement; NoDup is a
+   hypothesis here).  `leqb` is the equality of index labels that the keyed
+   pandas operations of the model may use (Model/Mapper.v, Section Keyed).
+   Every theorem is for all series (all lengths, all
    missing patterns, all labels).  The model is tied to /repo on every run by
    harness/c01.py (same frames through both; every cell compared). *)
 From Coq Require Import ZArith List Permutation Sorting.Sorted.
@@ -51,13 +56,17 @@ Print Assumptions category_index_position.
 
 (* ---- multicategorical: the set of category indices of the cell's tokens
         (compared sorted: a Python set has no order); [-1] for a missing cell;
-        [] for a blank cell; unseen tokens dropped.  `tokens_ok`: no token is
-        the integer -1, the mapper's own missing marker (automatic for
-        delimiter-joined strings) ------------------------------------------- *)
+        [] for a blank cell; unseen tokens dropped.  The first argument `true`
+        is the dtype gate (object / string dtype).  The two hypotheses about
+        the integer -1 (`~ In (VInt (-1)) cats`, `tokens_ok`: no token is the
+        integer -1 -- automatic for delimiter-joined strings) are NOT technical:
+        -1 is the mapper's own marker for a missing cell, and without them the
+        statement is false of the faithful model and of the code, see
+        multicategorical_minus_one_refuted below (known finding) -------------- *)
 Theorem multicategorical_cells : forall (L : Type) cats sep (s : @series L mc_cell) canon,
   NoDup cats -> ~ In (VInt (-1)) cats -> Forall (tokens_ok sep) (ser_values s) ->
   mapM (canon_multi cats sep) (ser_values s) = Some canon ->
-  exists enc, multicategorical_encode cats sep s = Some enc /\ map sort_cell enc = canon.
+  exists enc, multicategorical_encode true cats sep s = Some enc /\ map sort_cell enc = canon.
 Proof. intros. apply multicategorical_faithful_sorted; assumption. Qed.
 Print Assumptions multicategorical_cells.
 
@@ -65,7 +74,7 @@ Print Assumptions multicategorical_cells.
 Theorem multicategorical_cells_perm : forall (L : Type) cats sep (s : @series L mc_cell) canon,
   NoDup cats -> ~ In (VInt (-1)) cats -> Forall (tokens_ok sep) (ser_values s) ->
   mapM (canon_multi cats sep) (ser_values s) = Some canon ->
-  exists enc, multicategorical_encode cats sep s = Some enc /\ Forall2 (@Permutation scalar) enc canon.
+  exists enc, multicategorical_encode true cats sep s = Some enc /\ Forall2 (@Permutation scalar) enc canon.
 Proof. intros. apply multicategorical_faithful; assumption. Qed.
 Print Assumptions multicategorical_cells_perm.
 
@@ -92,19 +101,47 @@ Proof. exact tokens_ok_str. Qed.
 Print Assumptions multicategorical_string_tokens_ok.
 
 (* a cell that does not fit the separator configuration makes forward raise *)
-Theorem multicategorical_ill_typed_raises : forall (L : Type) cats sep (s : @series L mc_cell),
-  mapM (canon_multi cats sep) (ser_values s) = None -> multicategorical_encode cats sep s = None.
+Theorem multicategorical_ill_typed_raises : forall (L : Type) dt cats sep (s : @series L mc_cell),
+  mapM (canon_multi cats sep) (ser_values s) = None -> multicategorical_encode dt cats sep s = None.
 Proof. intros. apply multicategorical_raises. assumption. Qed.
 Print Assumptions multicategorical_ill_typed_raises.
 
+(* the dtype gate: a column that pandas holds with a non-object, non-string
+   dtype (e.g. an all-NaN float64 column) makes forward raise *)
+Theorem multicategorical_dtype_gate : forall (L : Type) cats sep (s : @series L mc_cell),
+  multicategorical_encode false cats sep s = None.
+Proof. reflexivity. Qed.
+Print Assumptions multicategorical_dtype_gate.
+
+(* KNOWN FINDING (known_findings.txt: multicat-int-token-minus-one-aliases-missing).
+   With list-valued cells whose tokens are integers, the token -1 collides with
+   the missing marker: for the column [[-1, 2], [2], None, [3]] with statistics
+   [2; -1; 3] the faithful pipeline encodes the MISSING cell as {1, -1} (it
+   aliases category 1) and stamps the marker on row 0, which is not missing.
+   The canonical encoding is [[0;1]; [0]; [-1]; [2]].  Computed witness. *)
+Definition minus_one_cats : list pval := [VInt 2; VInt (-1); VInt 3].
+Definition minus_one_series : @series nat mc_cell :=
+  [(0%nat, MCList [VInt (-1); VInt 2]); (1%nat, MCList [VInt 2]); (2%nat, MCMissing); (3%nat, MCList [VInt 3])].
+Theorem multicategorical_minus_one_refuted :
+  NoDup minus_one_cats /\
+  mapM (canon_multi minus_one_cats None) (ser_values minus_one_series)
+    = Some [[SInt 0; SInt 1]; [SInt 0]; [SInt (-1)]; [SInt 2]] /\
+  option_map (map sort_cell) (multicategorical_encode true minus_one_cats None minus_one_series)
+    = Some [[SInt (-1); SInt 0; SInt 1]; [SInt 0]; [SInt (-1); SInt 1]; [SInt 2]].
+Proof.
+  split; [repeat constructor; simpl; intuition discriminate | split; vm_compute; reflexivity].
+Qed.
+Print Assumptions multicategorical_minus_one_refuted.
+
 (* ---- numerical sequences: the value sequence (NaN kept); missing -> [] --- *)
-Theorem sequence_cells : forall (L : Type) (s : @series L seq_cell) canon,
-  mapM canon_seq (ser_values s) = Some canon -> sequence_encode s = Some canon.
-Proof. intros. apply sequence_faithful. assumption. Qed.
+Theorem sequence_cells : forall (L : Type) (leqb : L -> L -> bool) (s : @series L seq_cell) canon,
+  leqb_refl leqb ->
+  mapM canon_seq (ser_values s) = Some canon -> sequence_encode leqb s = Some canon.
+Proof. intros. apply sequence_faithful; assumption. Qed.
 Print Assumptions sequence_cells.
 
-Theorem sequence_ill_typed_raises : forall (L : Type) (s : @series L seq_cell),
-  mapM canon_seq (ser_values s) = None -> sequence_encode s = None.
+Theorem sequence_ill_typed_raises : forall (L : Type) (leqb : L -> L -> bool) (s : @series L seq_cell),
+  mapM canon_seq (ser_values s) = None -> sequence_encode leqb s = None.
 Proof. intros. apply sequence_raises. assumption. Qed.
 Print Assumptions sequence_ill_typed_raises.
 
@@ -161,7 +198,9 @@ Theorem calendar_is_gregorian : forall z,
 Proof. intro z. split; [apply civil_of_days_valid | split; [apply civil_of_days_succ | apply weekday_succ]]. Qed.
 Print Assumptions calendar_is_gregorian.
 
-(* ---- embeddings: the given vector (any width, one width per column) ------ *)
+(* ---- embeddings: the given vector (any width, one width per column).  An
+        embedding cell is a vector by type: a missing embedding cell makes
+        np.stack raise and is outside the property ("the given vector") ------- *)
 Theorem embedding_cells : forall (L : Type) (s : @series L (list num)) w,
   s <> [] -> Forall (fun v => length v = w) (ser_values s) ->
   embedding_encode s = Some (map canon_vec (ser_values s)).
@@ -170,15 +209,16 @@ Print Assumptions embedding_cells.
 
 (* ---- inside the converter: whatever the stype, an encoded feature column is
         canonical cell by cell (canonical_col spells out the six cases) ------ *)
-Theorem column_in_frame_canonical : forall (L : Type) (idx : list L) c col,
-  length idx = rawcol_len c -> rawcol_ok c -> encode_col idx c = Some (ECol col) -> canonical_col c col.
+Theorem column_in_frame_canonical : forall (L : Type) (leqb : L -> L -> bool) (idx : list L) c col,
+  leqb_refl leqb ->
+  length idx = rawcol_len c -> rawcol_ok c -> encode_col leqb idx c = Some (ECol col) -> canonical_col c col.
 Proof. intros. eapply encode_col_canonical; eassumption. Qed.
 Print Assumptions column_in_frame_canonical.
 
 (* ---- the target column is encoded the same way into y -------------------- *)
-Theorem target_encoded_like_feature : forall (L : Type) target (df : frame L) t tg c,
-  convert target df = Some t -> target = Some tg -> get_col (f_cols df) tg = Some c ->
-  exists y, tf_y t = Some y /\ encode_col (f_index df) c = Some y.
+Theorem target_encoded_like_feature : forall (L : Type) (leqb : L -> L -> bool) target (df : frame L) t tg c,
+  convert leqb target df = Some t -> target = Some tg -> get_col (f_cols df) tg = Some c ->
+  exists y, tf_y t = Some y /\ encode_col leqb (f_index df) c = Some y.
 Proof. intros. eapply convert_target; eassumption. Qed.
 Print Assumptions target_encoded_like_feature.
 
@@ -195,7 +235,7 @@ Example multicategorical_hypotheses_hold :
   NoDup ex_cats /\ ~ In (VInt (-1)) ex_cats /\ Forall (tokens_ok (Some [124%Z])) (ser_values ex_multi) /\
   mapM (canon_multi ex_cats (Some [124%Z])) (ser_values ex_multi)
     = Some [[SInt 0; SInt 1]; [SInt (-1)]; []; [SInt 2]] /\
-  option_map (map sort_cell) (multicategorical_encode ex_cats (Some [124%Z]) ex_multi)
+  option_map (map sort_cell) (multicategorical_encode true ex_cats (Some [124%Z]) ex_multi)
     = Some [[SInt 0; SInt 1]; [SInt (-1)]; []; [SInt 2]].
 Proof.
   split; [|split; [|split; [|split]]].
@@ -214,8 +254,13 @@ Example timestamp_example :
 Proof. vm_compute. reflexivity. Qed.
 
 Example sequence_example :
-  sequence_encode [(1, SQList [Some (NFin 3); None]); (1, SQMissing); (5, SQList []); (2, SQList [Some NPosInf])] =
+  leqb_refl Nat.eqb /\
+  sequence_encode Nat.eqb [(1%nat, SQList [Some (NFin 3); None]); (1%nat, SQMissing); (5%nat, SQList []); (2%nat, SQList [Some NPosInf])] =
   Some [[SNum (NFin 3); SNum NNaN]; []; []; [SNum NPosInf]].
+Proof. split; [exact Nat.eqb_refl | vm_compute; reflexivity]. Qed.
+
+Example embedding_example :
+  embedding_encode [(7, [NFin 1; NFin 2]); (7, [NPosInf; NNaN])] = Some [[SNum (NFin 1); SNum (NFin 2)]; [SNum NPosInf; SNum NNaN]].
 Proof. vm_compute. reflexivity. Qed.
 
 Example categorical_example :
